@@ -77,6 +77,9 @@ type Item struct {
 	// marker).  It occupies Base..Last of the log but holds nothing for the application: no consumer is ever handed a
 	// control record.  In the layout text it is an empty batch.
 	Control bool
+	// WrapKey: the key of a v0/v1 wrapper message.  Producers write null (nil) there; the message format allows any key
+	// and no consumer is handed it — the wrapper only carries the inner messages.
+	WrapKey []byte
 }
 
 // stored is the record as the log defines it: under LogAppendTime its timestamp is the batch's append time.
@@ -270,7 +273,7 @@ func (it Item) Encode() ([]byte, string) {
 			wattrs |= 0x08
 			wts = it.LogAppendTs
 		}
-		out := encodeMsg(it.Format, last.Offset, wattrs, wts, nil, compressBytes(it.Codec, inner.Bytes()))
+		out := encodeMsg(it.Format, last.Offset, wattrs, wts, it.WrapKey, compressBytes(it.Codec, inner.Bytes()))
 		return out, fmt.Sprintf("w:%d:%d:%d:%d:%s", it.Format, last.Offset, it.Codec, len(out), strings.Join(rs, ","))
 	}
 }
